@@ -69,17 +69,9 @@ type run struct {
 
 func (x *run) violate(key, what string) { x.e.Rep.Violate(key, what, x.k) }
 
-// tolerantBig: TolerantIterateAllChunks (fsck) is outside C01's observed interface; while the sibling
-// of the repaired iterateAllChunks bug is still in dolt it is reported as a note.  Set
-// VERIF_C01_TOLERANT_STRICT=1 (or flip the default once dolt is repaired) to make it a violation.
-func (x *run) tolerantBig(what string) {
-	if os.Getenv("VERIF_C01_TOLERANT_STRICT") != "" {
-		x.violate(keyBigTol, what)
-		return
-	}
-	x.e.Rep.Note(keyBigTol + ": " + what)
-	x.e.Rep.Hit("note:" + keyBigTol)
-}
+// tolerantBig: TolerantIterateAllChunks (fsck) shares the iteration loop; its >4 MiB panic was repaired
+// in dolt together with iterateAllChunks, so a recurrence is a plain violation.
+func (x *run) tolerantBig(what string) { x.violate(keyBigTol, what) }
 
 // readCheck: all read paths on a probe set
 func (x *run) readCheck(cs chunks.ChunkStore, probes []hash.Hash, flattened bool) {
